@@ -247,7 +247,7 @@ func c19TypeErr(c *fw.Case) {
 
 // newSafe constructs a query, catching an escaped panic; the Outcome carries
 // the error / panic of New (Stage "new").
-func newSafe(doc map[string]any, sql string) (q *genql.Query, out Outcome) {
+func newSafe(doc map[string]any, sql string, opts ...genql.QueryOption) (q *genql.Query, out Outcome) {
 	defer func() {
 		if r := recover(); r != nil {
 			out.Panic = r
@@ -255,7 +255,7 @@ func newSafe(doc map[string]any, sql string) (q *genql.Query, out Outcome) {
 		}
 	}()
 	out.Stage = "new"
-	q, err := genql.New(doc, sql)
+	q, err := genql.New(doc, sql, opts...)
 	if err != nil {
 		out.Err = err
 		return nil, out
